@@ -32,6 +32,7 @@ type Contract struct {
 	Pure    bool
 	Inline  bool
 	Trusted bool
+	Bridge  bool     // "bridge": getters of concrete request/response types read their fields while this function is verified
 	Params  []string // explicit parameter names (spec files)
 	Pos     string
 	File    string
@@ -53,6 +54,7 @@ type GhostVar struct {
 	Name string
 	Type string // sort text: e.g. map[string]bool, int, map[string]V
 	Pkg  interface{} // *types.Package the declaration was written in
+	Zeroed bool      // "zeroed": an object has the zero ghost value when it is allocated
 }
 
 type Lemma struct {
@@ -490,7 +492,7 @@ func (p *parser) parsePrimary() (Expr, error) {
 // ---------- file parser ----------
 
 var clauseKW = map[string]bool{"requires": true, "ensures": true, "invariant": true, "assert": true, "let": true,
-	"modifies": true, "sets": true, "pure": true, "inline": true, "trusted": true, "assume": true, "var": true, "params": true, "readonly": true}
+	"modifies": true, "sets": true, "pure": true, "inline": true, "trusted": true, "bridge": true, "assume": true, "var": true, "params": true, "readonly": true}
 var blockKW = map[string]bool{"func": true, "interface": true, "spec": true, "ghost": true, "lemma": true, "axiom": true, "pureiface": true, "guards": true, "abstraction": true, "implements": true}
 
 var labelRe = regexp.MustCompile(`^\[(~?)(C[0-9]+\.[A-Za-z0-9_\-]+)\]\s*`)
@@ -581,7 +583,13 @@ func parseContractFile(path string) (*ContractFile, error) {
 			if len(parts) != 2 {
 				return nil, fail(ln.n, "ghost: expected name : type")
 			}
-			cf.Ghosts = append(cf.Ghosts, &GhostVar{Name: strings.TrimSpace(parts[0]), Type: strings.TrimSpace(parts[1])})
+			gt := strings.TrimSpace(parts[1])
+			zeroed := false
+			if strings.HasSuffix(gt, " zeroed") {
+				zeroed = true
+				gt = strings.TrimSpace(strings.TrimSuffix(gt, " zeroed"))
+			}
+			cf.Ghosts = append(cf.Ghosts, &GhostVar{Name: strings.TrimSpace(parts[0]), Type: gt, Zeroed: zeroed})
 		case "spec":
 			// spec func name(a T, b T) R = expr   | spec func name(a T) R   (uninterpreted)
 			r := strings.TrimSpace(strings.TrimPrefix(rest, "func"))
@@ -658,7 +666,7 @@ func parseContractFile(path string) (*ContractFile, error) {
 				cl.Pending = m[1] == "~"
 			}
 			cur.Clauses = append(cur.Clauses, cl)
-		case "pure", "inline", "trusted":
+		case "pure", "inline", "trusted", "bridge":
 			if cur == nil {
 				return nil, fail(ln.n, "%s outside func block", kw)
 			}
@@ -669,6 +677,8 @@ func parseContractFile(path string) (*ContractFile, error) {
 				cur.Inline = true
 			case "trusted":
 				cur.Trusted = true
+			case "bridge":
+				cur.Bridge = true
 			}
 		case "params":
 			if cur == nil {
